@@ -34,7 +34,10 @@ WRITE_PATH_FILES = ('session.py', 'websocket.py', 'compression.py', 'frame.py', 
 
 
 class Scheduler(object):
-    def __init__(self, plan=None, rnd=None, switch_prob=0.0, files=None, max_steps=200000, pct=None):
+    def __init__(self, plan=None, rnd=None, switch_prob=0.0, files=None, max_steps=200000, pct=None, opcode_funcs=()):
+        # functions (by name) in which every BYTECODE instruction is a yield point, not only every source line: a
+        # thread switch does not wait for the end of a line - two attribute stores written on one line are two steps
+        self.opcode_funcs = frozenset(opcode_funcs or ())
         self.plan = {k: v for k, v in dict(plan or {}).items() if int(k) >= 0}      # step -> tid to run (forced choice)
         self.rnd = rnd
         self.switch_prob = switch_prob
@@ -73,13 +76,15 @@ class Scheduler(object):
                 ok = fn.rsplit('/', 1)[-1] in self.files
             self._fileok[fn] = ok
         if ok:
+            if self.opcode_funcs and frame.f_code.co_name in self.opcode_funcs:
+                frame.f_trace_opcodes = True
             return self._local_trace
         return None
 
     def _local_trace(self, frame, event, arg):
-        if event == 'line' and _active[0] is self:
+        if (event == 'line' or event == 'opcode') and _active[0] is self:
             self.lomond_yields += 1
-            self.yield_point('line')
+            self.yield_point(event)
         return self._local_trace
 
     # ---- token passing --------------------------------------------------
